@@ -83,7 +83,7 @@ INVARIANT RealRunSatisfiesC05
 """
 
 HKS = ("zero", "exact", "half", "custom")     # + "relaxed" (nested search) in three configurations
-DIST_KINDS = ("det", "dictdet", "dict1", "ulist", "utuple", "uset")
+DIST_KINDS = ("det", "dictdet", "dict1", "dictsum", "ulist", "utuple", "uset")
 LABEL_KINDS = ("int", "str", "tuple", "frozendict", "mixed", "falsy", "falsy")
 
 
@@ -290,6 +290,8 @@ def one_point(kind, x):
         return DictDistribution.deterministic(x)
     if kind == "dict1":
         return DictDistribution({x: 1.0})
+    if kind == "dictsum":                # one entry whose mass is the float sum of ten tenths (0.9999999999999999)
+        return DictDistribution.from_pairs([(x, 0.1)] * 10)
     if kind == "ulist":
         return UniformDistribution([x])
     if kind == "utuple":
@@ -339,6 +341,8 @@ def build(g, rep, rng):
         if stored:
             return stored_labels[sidx[s]]
         acts = [al[a] for a in range(K) if g["avail"][sidx[s]][a]]
+        if rep["actions_as"] == "iterator":      # a one-shot iterable
+            return (a for a in acts)
         return acts if as_list else tuple(acts)
 
     def edge(s, a):
@@ -439,7 +443,7 @@ def rand_rep(rng, plain=False):
     elif c == "quick_next_state":
         ik = tk = "det"
     return dict(container=c, init=ik, trans=tk, labels=rng.choice(LABEL_KINDS), alabels=rng.choice(LABEL_KINDS),
-                actions_as=rng.choice(["tuple", "list"] if plain else ["tuple", "list", "stored", "stored"]),
+                actions_as=rng.choice(["tuple", "list"] if plain else ["tuple", "list", "stored", "stored", "iterator"]),
                 reward_as=rng.choice(["int", "float"]),
                 goal_actions="ghost" if plain else rng.choice(["ghost", "ghost", "raise"]))
 
@@ -932,6 +936,27 @@ def revision_graph(rng):
     return g
 
 
+def corridor_graph(rng):
+    """A solution path longer than 1000 states (deeper than the interpreter's default recursion limit)."""
+    n = rng.randint(1080, 1200)
+    g = dict(N=n, K=2, cbase=0, cbig="1", hc=[0] * n, cfgs=[], then=0)
+    g["avail"] = [[1, 1 if rng.random() < 0.5 else 0] for _ in range(n)]
+    g["nxt"] = [[min(s + 2, n), rng.randint(1, s + 1)] for s in range(n)]      # forward by one | back or stay
+    g["cost"] = [[rng.choice([1, 1, 2]), rng.choice([0, 1])] for _ in range(n)]
+    g["goal"] = [0] * (n - 1) + [1]
+    g["start"] = 1
+    return g
+
+
+LONG_CFGS = [dict(alg="astar", tie="lifo", rnd=0, hk="zero"), dict(alg="astar", tie="fifo", rnd=1, hk="zero"),
+             dict(alg="bfs", tie="fifo", rnd=0, hk="zero")]
+
+
+def plan_long(rng):
+    g = corridor_graph(rng)
+    return [(g, cfg, rand_rep(rng), rng.randrange(2 ** 31) if cfg["rnd"] else None, rng.randrange(2 ** 30)) for cfg in LONG_CFGS]
+
+
 def plan_big(rng, n_graphs, runs_per_cfg):
     jobs = []
     for _ in range(n_graphs):
@@ -1040,6 +1065,22 @@ def judge_cases(ctx, graphs, plan, *, tamper=None, quiet_counts=False, trace_eve
             for q in pending:
                 q.complete()
             pending = []
+        if len(runs) % 40 == 0 and real["kind"] == "path":
+            # DRIFT level only (the statement is about what plan_on returns, not about a result object the
+            # caller has edited): the policy should not depend on the caller emptying the returned path list
+            q = Prepared(g, cfg, h2, rep, sd, bs)
+            q.execute(defer_policy=True)
+            ctx.evaluations += 1
+            ctx.count("probe_policy_after_caller_cleared_the_returned_path")
+            if q.res is not None:
+                try:
+                    labels = list(q.res.path)
+                    q.res.path.clear()
+                    for s in labels[:-1]:
+                        q.res.policy.action_dist(s)
+                except Exception as e:                           # noqa: BLE001
+                    ctx.drift("policy-depends-on-the-returned-path-list-staying-untouched",
+                              {"graph": digest(graph_for_tlc(g)), "cfg": cfg, "error": f"{type(e).__name__}: {e}"[:120]})
         if sd is not None and len(runs) % 7 == 0 and real["kind"] != "error":
             # DRIFT-level only (reproducibility is C13's clause): the same seed gives the same outcome
             # whatever the global generator holds
@@ -1091,7 +1132,7 @@ def judge_cases(ctx, graphs, plan, *, tamper=None, quiet_counts=False, trace_eve
         real = run_real(bg, cfg, [0] * bg["N"], brep, sd, bs)
         ctx.evaluations += 1
         bruns.append({"gid": where[key], "alg": cfg["alg"], "res": real, "cfg": cfg, "rep": brep, "seed": sd,
-                      "build_seed": bs, "graph": bg, "family": "big"})
+                      "build_seed": bs, "graph": bg, "family": "long" if bg["N"] > 1000 else "big"})
     if bruns and not quiet_counts:
         ctx.count("runs_on_the_many_revisions_family(30-40 states)", len(bruns))
     for x in extra:
@@ -1196,6 +1237,8 @@ def judge_cases(ctx, graphs, plan, *, tamper=None, quiet_counts=False, trace_eve
             case["graph"]["start"] = br["orig_start"]
             case["new_start"] = br["new_start"]
             fam = "initial-state-changed-in-place-then-planned-again"
+        elif br["family"] == "long":
+            fam = "solution-path-longer-than-1000-states"
         else:
             fam = "many-revisions-30-40-states"
         for clause in fails:
@@ -1268,7 +1311,7 @@ def run(ctx):
         part = graphs[k:k + chunk]
         link_reuse(rng, part)
         plan = plan_runs(rng, part, ctx.tier)
-        bigjobs = plan_big(rng, 200 if ctx.tier == "quick" else 500, 8)
+        bigjobs = plan_big(rng, 200 if ctx.tier == "quick" else 500, 8) + plan_long(rng)
         judge_cases(ctx, part, plan, trace_every=3 if ctx.tier == "quick" else 8, big=bigjobs)
     zero_entry_probe(ctx, graphs, rng)
 
@@ -1301,7 +1344,10 @@ def replay(ctx, case):
     g["cfgs"] = [case["cfg"]]
     leg = (1, 1, case["rep"], case["seed"], case["build_seed"])
     sc = case.get("scenario")
-    if case.get("family") == "restart":
+    if case.get("family") == "long":
+        bg = dict(case["graph"], cfgs=[], then=0)
+        judge_cases(ctx, [], [], big=[(bg, case["cfg"], case["rep"], case["seed"], case["build_seed"])])
+    elif case.get("family") == "restart":
         judge_cases(ctx, [g], [("restart", leg, case["new_start"])], trace_every=1)
     elif case.get("family") == "big":
         bg = dict(case["graph"], cfgs=[], then=0)
